@@ -245,6 +245,13 @@ func (w *world) probes(c *checker) {
 			return
 		}
 	}
+	// all range queries are issued first and their results inspected afterwards: a caller keeps a
+	// result while it (or somebody else) issues further queries
+	type held struct {
+		min, max int32
+		l        bitcoin_reader.PeerList
+	}
+	var results []held
 	for _, min := range scoreBounds {
 		for _, max := range scoreBounds {
 			l, err := w.repo.Get(w.ctx, min, max)
@@ -253,6 +260,12 @@ func (w *world) probes(c *checker) {
 				c.fail("get-error", "", err.Error())
 				return
 			}
+			results = append(results, held{min, max, l})
+		}
+	}
+	for _, r := range results {
+		{
+			min, max, l := r.min, r.max, r.l
 			got := map[string]int{}
 			for _, p := range l {
 				got[p.Address]++
